@@ -817,4 +817,108 @@ Section Invariant.
       + intros qid' Hq'. destruct (Hwq qid' (or_intror Hq')) as (q' & Hf' & Hp').
         exists q'. rewrite find_del_other; [auto|]. rewrite Hqid. intros ->. contradiction.
   Qed.
+
+  (* the whole stack: with enough fuel it is emptied, and the invariant holds at the end *)
+  Lemma w_run_inv : forall fuel ch work log h K,
+    Inv ch work log h -> length (w_queries ch) + 3 <= K ->
+    K * sum_r (we_nservers E * we_tries E) (w_queries ch) + length work < fuel ->
+    exists ch' log' h', w_run f E fuel ch work log h = Ok ((ch', log'), h') /\ Inv ch' [] log' h'.
+  Proof.
+    induction fuel as [|fu IH]; intros ch work log h K I HK Hm; [lia|].
+    destruct work as [|it rest].
+    - exists ch, log, h. split; [reflexivity | exact I].
+    - cbn [w_run].
+      destruct (w_step_inv ch it rest log h I) as (ch1 & log1 & more & h1 & Hrun & I1 & Hl1 & Hdec).
+      rewrite (bindM_ok _ _ _ _ _ Hrun). cbv beta iota.
+      apply (IH ch1 (more ++ rest) log1 h1 K I1); [lia|].
+      specialize (Hdec K HK). lia.
+  Qed.
+
+  Lemma sum_r_bound mx qs : sum_r mx qs <= length qs * (mx + 2).
+  Proof.
+    induction qs as [|x r IH]; [unfold sum_r; simpl; lia|]. rewrite sum_r_cons. unfold rq at 1. cbn [length].
+    rewrite Nat.mul_succ_l. lia.
+  Qed.
+
+  (* ares_send_query for a request that is in the list, detached, and everything it triggers *)
+  Theorem w_submit_inv ch q h :
+    Inv ch [] [] h -> In q (w_queries ch) -> detached q ->
+    exists ch' log' h', w_submit f E ch q h = Ok ((ch', log'), h') /\ Inv ch' [] log' h'.
+  Proof.
+    intros I Hin Hdet. unfold w_submit.
+    destruct (send_after_inv ch q [] [] h I Hin Hdet (fun x => x)) as (ch2 & log2 & more & h2 & Hrun & I2 & Hs2 & Hl2 & Hm2).
+    unfold bindM in Hrun. unfold bindM at 1.
+    destruct (w_send_query f E ch q [] h) as [[[[ch1 log1] nx] h1]|s|u]; try discriminate Hrun.
+    cbv beta iota in Hrun |- *.
+    unfold bindM at 1. destruct (w_after ch1 (q_qid q) nx h1) as [[a h1']|s|u]; try discriminate Hrun.
+    unfold ret in Hrun. inversion Hrun; subst. cbv beta iota.
+    rewrite app_nil_r in I2.
+    set (N := length (w_queries ch)) in *.
+    set (mx := we_nservers E * we_tries E).
+    apply (w_run_inv (w_fuel E ch) (fst a) (snd a) log2 h2 (N + 3) I2); [lia|].
+    unfold w_fuel. fold N. fold mx.
+    pose proof (Hs2 mx) as Hs. pose proof (sum_r_bound mx (w_queries ch)) as Hb. fold N in Hb.
+    pose proof (Nat.mul_le_mono_l _ _ (N + 3) (Nat.le_trans _ _ _ Hs Hb)) as Hk.
+    nia.
+  Qed.
 End Invariant.
+
+(* ------------------------------------------------------------------------------------ *)
+(* the statement for C14                                                                  *)
+(* ------------------------------------------------------------------------------------ *)
+
+(* For EVERY oracle and environment: submitting a request - through however many refused
+   writes, closed connections and requeued requests - ends with the work done (the fuel of the
+   model suffices, nothing is freed twice), every request called back AT MOST ONCE, a request
+   that was called back gone from the request list (hence from every index), every other
+   request still there, and the ledger balanced: the live blocks are exactly the blocks of the
+   live requests and connections (same [base] before and after). *)
+Theorem send_all_requests f E ch q h base :
+  NoDup (qids (w_queries ch)) ->
+  OS base (all_qblks (w_queries ch) ++ all_cblks (w_conns ch)) h ->
+  (forall q', In q' (w_queries ch) -> q_ok (w_conns ch) q') ->
+  In q (w_queries ch) -> detached q ->
+  exists ch' log h', w_submit f E ch q h = Ok ((ch', log), h') /\
+    NoDup (map fst log) /\
+    (forall qid, In qid (map fst log) -> ~ In qid (qids (w_queries ch'))) /\
+    Permutation (qids (w_queries ch') ++ map fst log) (qids (w_queries ch)) /\
+    OS base (all_qblks (w_queries ch') ++ all_cblks (w_conns ch')) h' /\
+    (forall q', In q' (w_queries ch') -> q_ok (w_conns ch') q').
+Proof.
+  intros Hnd Hos Hrng Hin Hdet.
+  assert (I : Inv base (qids (w_queries ch)) ch [] [] h).
+  { constructor.
+    - unfold owned. cbn [work_blks flat_map]. rewrite app_nil_r. exact Hos.
+    - cbn [map]. rewrite app_nil_r. apply Permutation_refl.
+    - exact Hrng.
+    - constructor.
+    - intros qid []. }
+  destruct (w_submit_inv f E base (qids (w_queries ch)) Hnd ch q h I Hin Hdet) as (ch' & log & h' & Hrun & I').
+  exists ch', log, h'. split; [exact Hrun|].
+  destruct I' as [Hos' Hids' Hrng' _ _].
+  pose proof (Permutation_NoDup (Permutation_sym Hids') Hnd) as Hnd'.
+  destruct (NoDup_app_inv _ _ Hnd') as (_ & Hl & Hdis).
+  split; [exact Hl|]. split; [intros qid Hq Hq'; exact (Hdis qid Hq' Hq)|]. split; [exact Hids'|].
+  split; [|exact Hrng'].
+  unfold owned in Hos'. cbn [work_blks flat_map] in Hos'. rewrite app_nil_r in Hos'. exact Hos'.
+Qed.
+
+(* non-vacuity, and the branch SendAlloc.v leaves out: request 9 is submitted on a connection
+   (slot 0) that carries request 7; the write is refused, the connection is closed, request 7 is
+   requeued and gets a new connection, request 9 is requeued, refused again and, out of
+   attempts, ended - one callback, request 7 untouched by callbacks, ledger balanced *)
+Example send_all_requests_example :
+  let E := mkWenv 1 2 (fun _ => false) (fun _ _ => true)
+                  (fun qid att => if Z.eqb qid 9 then Some 0 else None)
+                  (fun _ _ => ARES_SUCCESS)
+                  (fun qid _ => if Z.eqb qid 9 then ARES_ECONNREFUSED else ARES_SUCCESS) in
+  let c0 := mkWconn 10 11 12 13 14 15 false 1 in
+  let q7 := mkQuery 7%Z 20 (Some 21) None (Some 22) (Some 23) (Some 24) (Some (0, 25)) 0 ARES_SUCCESS false in
+  let q9 := mkQuery 9%Z 30 (Some 31) None (Some 32) (Some 33) None None 0 ARES_SUCCESS false in
+  let ch := mkWchan [Some c0] [q7; q9] 0 in
+  let h := mkHeap 40 [33; 32; 31; 30; 25; 24; 23; 22; 21; 20; 15; 14; 13; 12; 11; 10] in
+  exists ch' h', w_submit never_fail E ch q9 h = Ok ((ch', [(9%Z, ARES_ECONNREFUSED)]), h') /\
+                 qids (w_queries ch') = [7]%Z /\ get_slot (w_conns ch') 0 = None /\
+                 length (h_live h') = 6 + 6 /\
+                 length (all_qblks (w_queries ch') ++ all_cblks (w_conns ch')) = 6 + 6.
+Proof. cbv zeta. eexists; eexists. vm_compute. repeat split; reflexivity. Qed.
